@@ -267,3 +267,22 @@ package jobcontroller
 //@   ensures [C09,C20] other-errors-are-returned: jobtasks.tcN == old(jobtasks.tcN) + 1 && !jobtasks.tcOK[old(jobtasks.tcN)]
 //@        && createErr(old(jobtasks.tcN)) != 409001 && createErr(old(jobtasks.tcN)) != 900 ==> result2 != nil && result0 == rj && len(result1) == len(tasks)
 //@   ensures [C09] cached-job-untouched: *rj == old(*rj) && (forall k string :: (k in rj.Annotations) == old(k in rj.Annotations))
+
+// ---- status recomputation (C11) ----------------------------------------------------------------------------------------------------
+
+//@ func UpdateJobStatusFromTaskRefs
+//@   tags C11
+//@   requires rj != nil && rj.Spec.Template != nil
+//@   modifies clock
+//@   ensures [C11] error-returns-input: result1 != nil ==> result0 == rj
+//@   ensures [C11] exactly-one-condition: result1 == nil ==> job.oneOf(result0.Status.Condition)
+//@   ensures [C11] state-matches-condition: result1 == nil ==> result0.Status.State ==
+//@        (result0.Status.Condition.Queueing != nil ? execution.JobStateQueued : (result0.Status.Condition.Waiting != nil ? execution.JobStateWaiting
+//@        : (result0.Status.Condition.Running != nil ? execution.JobStateRunning : execution.JobStateFinished)))
+//@   ensures [C11] phase-terminal-iff-finished: result1 == nil ==> (result0.Status.Phase.IsTerminal() <==> result0.Status.Condition.Finished != nil)
+//@   ensures [C11] start-time-and-tasks-untouched: result1 == nil ==> result0.Status.StartTime == rj.Status.StartTime && result0.Status.CreatedTasks == rj.Status.CreatedTasks
+//@        && len(result0.Status.Tasks) == len(rj.Status.Tasks) && (forall k int :: 0 <= k && k < len(rj.Status.Tasks) ==> result0.Status.Tasks[k] == rj.Status.Tasks[k])
+//@   ensures [C11] identity-kept: result1 == nil ==> result0 != nil && result0.Name == rj.Name && result0.UID == rj.UID && result0.Spec == rj.Spec
+//@        && execution.sameStrs(result0.Finalizers, rj.Finalizers) && result0.DeletionTimestamp == rj.DeletionTimestamp
+//@   ensures [C11] cached-job-untouched: *rj == old(*rj)
+//@   ensures clock >= old(clock)
